@@ -7,27 +7,35 @@ package data
 // and "" are falsy; everything else is truthy (C20, C01).
 
 //@ func Undefined.Truthy
+//@   pure
 //@   props C20 C01
 //@   ensures !result
 //@ func Null.Truthy
+//@   pure
 //@   props C20 C01
 //@   ensures !result
 //@ func Bool.Truthy
+//@   pure
 //@   props C20 C01
 //@   ensures result == v
 //@ func Int.Truthy
+//@   pure
 //@   props C20 C01
 //@   ensures result == (v != 0)
 //@ func Float.Truthy
+//@   pure
 //@   props C20 C01
 //@   ensures[nan-is-falsy] result == (v != 0.0 && !isNaN(v))
 //@ func String.Truthy
+//@   pure
 //@   props C20 C01
 //@   ensures result == (len(v) != 0)
 //@ func List.Truthy
+//@   pure
 //@   props C20 C01
 //@   ensures result
 //@ func Map.Truthy
+//@   pure
 //@   props C20 C01
 //@   ensures result
 
@@ -36,41 +44,51 @@ package data
 // Float-vs-Int arm carry the same formula with the operands swapped.
 
 //@ func Undefined.Equals
+//@   pure
 //@   props C20 C01
 //@   ensures result == typeis(other, Undefined)
 //@ func Null.Equals
+//@   pure
 //@   props C20 C01
 //@   ensures result == typeis(other, Null)
 //@ func Bool.Equals
+//@   pure
 //@   props C20 C01
 //@   ensures typeis(other, Bool) ==> result == (v == unbox(other, Bool))
 //@   ensures !typeis(other, Bool) ==> !result
 //@ func Int.Equals
+//@   pure
 //@   props C20 C01
 //@   ensures[int-int] typeis(other, Int) ==> result == (v == unbox(other, Int))
 //@   ensures[int-float] typeis(other, Float) ==> result == (float64(v) == unbox(other, Float))
 //@   ensures[strict] !typeis(other, Int) && !typeis(other, Float) ==> !result
 //@ func Float.Equals
+//@   pure
 //@   props C20 C01
 //@   ensures[float-float] typeis(other, Float) ==> result == (v == unbox(other, Float))
 //@   ensures[float-int] typeis(other, Int) ==> result == (float64(unbox(other, Int)) == v)
 //@   ensures[strict] !typeis(other, Int) && !typeis(other, Float) ==> !result
 //@ func String.Equals
+//@   pure
 //@   props C20 C01
 //@   ensures[strict] !typeis(other, String) ==> !result
 //@ func List.Equals
+//@   pure
 //@   props C20 C01
 //@   ensures[strict] !typeis(other, List) ==> !result
 //@ func Map.Equals
+//@   pure
 //@   props C20 C01
 //@   ensures[strict] !typeis(other, Map) ==> !result
 
 // Collections are total: outside their domain they yield Undefined.
 //@ func List.Index
+//@   pure
 //@   props C20 C01
 //@   ensures[in-range] 0 <= i && i < len(v) ==> result == v[i]
 //@   ensures[out-of-range] !(0 <= i && i < len(v)) ==> typeis(result, Undefined)
 //@ func Map.Key
+//@   pure
 //@   props C20 C01
 //@   ensures[present] haskey(v, k) ==> result == v[k]
 //@   ensures[absent] !haskey(v, k) ==> typeis(result, Undefined)
